@@ -493,7 +493,7 @@ func (r *Run) checkAnchoredRequest(P string) {
 	if f == nil {
 		return
 	}
-	ff := r.E.Facts(f, core.Ctx{})
+	_ = r.E.Facts(f, core.Ctx{})
 	consumers := r.P.SubjectFuncs(pkgParser, pkgApplier)
 	prov := map[string]map[string]string{
 		"CreateRequest":     {"Operation": "$0.Type", "SuffixData": "$0.SuffixData", "Delta": "$0.Delta"},
@@ -512,13 +512,14 @@ func (r *Run) checkAnchoredRequest(P string) {
 		if T == nil {
 			continue
 		}
-		lits := literalsOf(f, T)
+		lits := r.literalsDeep(f, T, 2)
 		id := P + ".request." + typeOf[tn]
 		if len(lits) != 1 {
 			r.R.Unk(id, "E5 dst-complete", core.FuncName(f), r.where(f), "-", fmt.Sprintf("%d literals of %s", len(lits), tn))
 			continue
 		}
-		for al, m := range lits {
+		for _, lit := range lits {
+			al, m := lit.Alloc, lit.Fields
 			read := structFieldsRead(consumers, T)
 			var missing, wrong []string
 			for fld := range read {
@@ -532,12 +533,12 @@ func (r *Run) checkAnchoredRequest(P string) {
 					missing = append(missing, fld)
 					continue
 				}
-				if t := ff.TB.Of(v); !core.MatchTerm(pat, t, core.Bind{}) {
+				if t := lit.Frame.Term(v); !core.MatchTerm(pat, t, core.Bind{}) {
 					wrong = append(wrong, fld+" = "+t.String())
 				}
 			}
 			// literal built under op.Type == that type
-			okType := core.HasFact(ff.At(al), `cmp($0.Type == "`+typeOf[tn]+`")`)
+			okType := core.HasFact(lit.Frame.Facts(al), `cmp($0.Type == "`+typeOf[tn]+`")`)
 			sort.Strings(missing)
 			r.R.Check(len(missing) == 0 && len(wrong) == 0 && okType, id, "E5 dst-complete + provenance: the "+tn+" literal (built under op.Type == "+typeOf[tn]+") assigns every field the parser reads, from the like-named operation field",
 				core.FuncName(f), r.P.Pos(al.Pos()), "a request re-created with a missing or swapped member is not JSON-equal to the submitted one and may not parse", "complete", fmt.Sprintf("missing %v wrong %v typeGuard %v", dedupe(missing), wrong, okType))
